@@ -90,3 +90,41 @@ Proof.
   end.
   repeat split; lia.
 Qed.
+
+(* the grid repeats over the whole frame: the loop bounds are extent // unit + 1 along EACH axis with that axis'
+   own extent and unit (so no slab of the volume is left without holes), and a configured number of holes is reached *)
+Theorem grid_count_holes_number hx hy hz ro ratio sx sy sz img du dx dy dz Hh W D nx ny nz :
+  vshape img = (Hh, W, D) ->
+  GridDropoutS_get_params_dependent_on_targets_count (Some hx) (Some hy) (Some hz) ro ratio sx sy sz None None img du dx dy dz
+    = Ok (nx, ny, nz) ->
+  nx = W / (W / hx) + 1 /\ ny = Hh / (Hh / hy) + 1 /\ nz = D / (D / hz) + 1 /\ hx < nx /\ hy < ny /\ hz < nz.
+Proof.
+  intros S E. unfold GridDropoutS_get_params_dependent_on_targets_count in E. cbn zeta in E.
+  rewrite S in E. res_inv.
+  repeat grid_step.
+  all: repeat match goal with
+  | H : negb _ = false |- _ => apply negb_false_iff in H
+  | H : _ && _ = true |- _ => apply andb_true_iff in H; destruct H
+  | H : (_ <=? _) = true |- _ => apply Z.leb_le in H
+  | H : (_ =? _) = false |- _ => apply Z.eqb_neq in H
+  | H : (_ =? _) = true |- _ => apply Z.eqb_eq in H
+  end.
+  all: try lia.
+  all: assert (2 <= W / hx) by (apply div_ge2; lia); assert (2 <= Hh / hy) by (apply div_ge2; lia);
+       assert (2 <= D / hz) by (apply div_ge2; lia).
+  all: assert (hx <= W / (W / hx)) by (apply Z.div_le_lower_bound; [lia | rewrite Z.mul_comm; apply Z.mul_div_le; lia]).
+  all: assert (hy <= Hh / (Hh / hy)) by (apply Z.div_le_lower_bound; [lia | rewrite Z.mul_comm; apply Z.mul_div_le; lia]).
+  all: assert (hz <= D / (D / hz)) by (apply Z.div_le_lower_bound; [lia | rewrite Z.mul_comm; apply Z.mul_div_le; lia]).
+  all: repeat split; lia.
+Qed.
+
+Theorem grid_count_unit_size hx hy hz ro ratio sx sy sz a b img du dx dy dz Hh W D nx ny nz :
+  vshape img = (Hh, W, D) -> a <> 0 -> b <> 0 ->
+  GridDropoutS_get_params_dependent_on_targets_count hx hy hz ro ratio sx sy sz (Some b) (Some a) img du dx dy dz
+    = Ok (nx, ny, nz) ->
+  a <= du <= b /\ nx = W / du + 1 /\ ny = Hh / du + 1 /\ nz = D / du + 1.
+Proof.
+  intros S Na Nb E. unfold GridDropoutS_get_params_dependent_on_targets_count in E. cbn zeta in E.
+  rewrite S in E. apply Z.eqb_neq in Na. apply Z.eqb_neq in Nb. rewrite Na, Nb in E. cbn [negb] in E.
+  res_inv. repeat grid_step. all: try lia. all: repeat split; lia.
+Qed.
